@@ -4,6 +4,31 @@ import json, os, sys
 HERE = os.path.dirname(os.path.dirname(os.path.abspath(__file__)))
 
 CHECKS = {
+ "C13": dict(
+   technique="generated histories of compilations judged against a token-level attribute oracle (reference function of the text)",
+   text="Accepted corpus parts and generated programs combining if / .new / load / store / JUMP / predicate writes are compiled in "
+        "random order - interleaved with inputs the transformer rejects after having visited attribute-relevant constructs - on fresh "
+        "compilers and on a second compiler instance; every reported list is compared as a set with the attributes a lexer-level scanner "
+        "derives from the C text alone (history independent), plus no-op-list => NONE and unimplemented => INVALID.",
+   note="Trusted: the scanner in vlib/checks/c13.py (validated on the whole corpus). Order of the list is not judged.",
+   design="7/C13"),
+ "C18": dict(
+   technique="generated inputs x harness-owned schedules (pool size, per-task delays), differential against sequential parsing",
+   text="Random subsets/orderings of short corpus behaviours with broken behaviours injected (whole entries, either part of two-part "
+        "entries, two-part families sharing a first part) are parsed through Parser.parse with pool sizes 1..16 and deterministic per-task "
+        "delays that force out-of-order completion; keys, per-part trees, exception names and empty tree lists are compared with an "
+        "in-process sequential parse.",
+   note="The OS scheduler is not enumerated; only pool size and completion order are owned (Parser.Pool / parse_single are substituted "
+        "from outside, fork start method). Trusted: Lark tree equality.",
+   design="7/C18"),
+ "C19": dict(
+   technique="corpus differential against an independent splitter + Hypothesis assemble/split round trip + generated files in a scratch repository",
+   text="All 2181 bundled lines and 72 compounds are compared with a non-regex splitter; generated `insn(NAME, BODY)` lines (bodies with "
+        "nested parentheses/braces, commas, ')' at the end, 'insn(' inside, trailing whitespace) must split back to exactly (NAME, BODY) or "
+        "raise; generated compound bodies (text before/between/after markers, marker count 0..3) must split into two brace-balanced blocks "
+        "with the same token stream; load_insn_behavior is run on successive generated files (no stale entries, malformed lines rejected).",
+   note="Rejecting (raising) is always allowed. Trusted: the assembly functions and token comparison in vlib/checks/c19.py.",
+   design="7/C19"),
  "C06": dict(
    technique="Hypothesis-generated programs with value-producing side effects, differential execution C reference vs RzIL interpreter",
    text="Programs with 0..4 hybrids (postfix ++/--, calls to bundled sub-routines, GCC statement-expressions) in initialisers, assignments, "
